@@ -47,6 +47,7 @@ def main():
     cases = 0
     distinct = set()
     failures = []
+    per_class = {}
     samples = []
     parts = {}
     errors = []
@@ -74,12 +75,13 @@ def main():
                         break
                     continue
                 if v:
-                    if len(failures) < 25:
-                        failures.append({'key': '%s::%s' % (target, gens.failure_class(target, inp, detail)), 'what': str(detail)[:400],
-                                         'target': target, 'inputs': inp})
+                    fkey = '%s::%s' % (target, gens.failure_class(target, inp, detail))
+                    per_class[fkey] = per_class.get(fkey, 0) + 1
+                    if per_class[fkey] <= 2 and len(failures) < 80:      # a couple of witnesses per failure class
+                        failures.append({'key': fkey, 'what': str(detail)[:400], 'target': target, 'inputs': inp})
             parts[part] = n_part
         out = {'property': a.pid, 'cases': cases, 'distinct_nontrivial': len(distinct), 'failures': failures, 'samples': samples,
-               'parts': parts, 'domain': gens.domain_text(a.pid, a.tier), 'bound': gens.bound_text(a.pid, a.tier),
+               'parts': parts, 'failure_classes': per_class, 'domain': gens.domain_text(a.pid, a.tier), 'bound': gens.bound_text(a.pid, a.tier),
                'rule': gens.RULE, 'exhaustive': False}
         if errors:
             out['error'] = 'oracle crashed: ' + errors[0]
